@@ -31,13 +31,20 @@ class F(metaclass=TrueSingleton):
         LOG.append(("F", self, args, kwargs))
     def __len__(self):
         return 0
+def _twin(tag):
+    def __init__(self, *args, **kwargs):
+        LOG.append((tag, self, args, kwargs))
+    # two distinct classes with one name, module and qualified name (what a class factory, or a re-executed class statement, produces)
+    return TrueSingleton("Service", (), {"__init__": __init__, "__module__": __name__})
+S1 = _twin("S1")
+S2 = _twin("S2")
 '''
-CLASSES = ("A", "B", "C", "F")
+CLASSES = ("A", "B", "C", "F", "S1", "S2")
 
 
 def run(ctx):
     res = ctx.res
-    res.rule_text = ("every subset of {A, B(A), C, F(falsy instances)} holding a live instance (reached by constructing) x every operation (construct each class with positional+keyword "
+    res.rule_text = ("every subset of {A, B(A), C, F(falsy instances), S1, S2 (two distinct classes sharing name, module and qualified name)} holding a live instance (reached by constructing) x every operation (construct each class with positional+keyword "
                      "arguments, clear each class present or absent, global clear; thorough: two operations) -> returned identity, class of the result, __init__ log and the table observed by "
                      "re-constructing every class, compared with the class->instance table model")
     res.trusted_base = common.TRUSTED_AE + ["metaclass __call__ / super(Meta, cls).__call__ semantics of AE (validated by the harness classes themselves)"]
@@ -62,10 +69,12 @@ def run(ctx):
             if why:
                 op = seq[-1] if len(seq) == 1 else seq[0]
                 qual = MOD + (".TrueSingleton.__call__" if seq[0][0] == "new" else ".clear_true_singleton")
-                cls = f"op={seq[0][0]},target-live={seq[0][1] in live if seq[0][1] else 'n/a'},target={'falsy-instance-class' if seq[0][1] == 'F' else ('subclass' if seq[0][1] == 'B' else ('parent-of-live-subclass' if seq[0][1] == 'A' and 'B' in live else 'plain'))},others-live={len([c for c in live if c != seq[0][1]]) > 0}"
+                t0 = seq[0][1]
+                tcls = "falsy-instance-class" if t0 == "F" else ("same-name-twin" if t0 in ("S1", "S2") else ("subclass" if t0 == "B" else ("parent-of-live-subclass" if t0 == "A" and "B" in live else "plain")))
+                cls = f"op={seq[0][0]},target-live={t0 in live if t0 else 'n/a'},target={tcls},others-live={len([c for c in live if c != t0]) > 0}"
                 res.violation("TABLE-STEP", qual, cls, f"live instances {list(live)}, operations {seq}: {why}", replay=replay(live, seq))
     res.rule("TABLE-STEP", n)
-    common.vacuity(res, "TABLE-STEP", 200)
+    common.vacuity(res, "TABLE-STEP", 1000)
     res.analysed = common.analysed(ctx, [MOD + ".clear_true_singleton", MOD + ".TrueSingleton.__call__"])
     res.explanation = "Every operation maps every reachable table state to the model's table state; induction gives the statement for all interleavings."
 
@@ -148,10 +157,11 @@ def replay(live, seq):
          "class A(metaclass=TrueSingleton):\n    def __init__(self, *a, **k): calls.append(('A', a, k))",
          "class B(A):\n    def __init__(self, *a, **k): calls.append(('B', a, k))",
          "class C(metaclass=TrueSingleton):\n    def __init__(self, *a, **k): calls.append(('C', a, k))",
-         "class F(metaclass=TrueSingleton):\n    def __init__(self, *a, **k): calls.append(('F', a, k))\n    def __len__(self): return 0"]
+         "class F(metaclass=TrueSingleton):\n    def __init__(self, *a, **k): calls.append(('F', a, k))\n    def __len__(self): return 0",
+         "def _twin(tag):\n    def __init__(self, *a, **k): calls.append((tag, a, k))\n    return TrueSingleton('Service', (), {'__init__': __init__})", "S1 = _twin('S1'); S2 = _twin('S2')"]
     for c in live:
         L.append(f"i{c} = {c}('setup')")
     for op, c, v in seq:
         L.append({"new": f"r = {c}('arg{v}', k='kw{v}'); print(r, calls)", "clear": f"clear_true_singleton({c})", "clear-all": "clear_true_singleton()"}[op])
-    L.append("print([(c.__name__, c('again')) for c in (A, B, C, F)], calls)")
+    L.append("print([(c.__name__, c('again')) for c in (A, B, C, F, S1, S2)], calls)")
     return "\n".join(L)
